@@ -79,3 +79,61 @@ fn k_src_range_into_par() {
     let f = (lo..lo + 3).into_par().num_threads(2).chunk_size(1).first();
     assert!(f == Some(lo), "C01,C02: first() of a range is not its start");
 }
+
+// ------------------------------------------------------------------------------------------
+// std collections (src/into/as_par.rs mod impl_std_collections): `par()` must deliver what the collection's own
+// iterator yields. VecDeque with a WRAPPED ring buffer (as_slices() has two non-empty halves), LinkedList, BinaryHeap.
+// The oracle is the collection's iterator itself. (HashSet / HashMap / BTreeSet / BTreeMap are the same one-line
+// pattern `ParEmpty::new(self.iter().into_con_iter())`; their std implementations are beyond CBMC.)
+
+macro_rules! coll_harness {
+    ($name:ident, $d:ident, $build:expr) => {
+        #[kani::proof]
+        #[kani::unwind(8)]
+        #[kani::stub(crate::core::runner::Runner::run, crate::core::verif_kani::stub_run)]
+        #[kani::stub(crate::core::runner::Runner::run_map, crate::core::verif_kani::stub_run_map)]
+        #[kani::stub(crate::core::runner::Runner::reduce, crate::core::verif_kani::stub_reduce)]
+        fn $name() {
+            let _l = Log::new();
+            let $d = any3();
+            let coll = $build;
+            let exp_n = coll.iter().count();
+            let exp_x = coll.iter().copied().reduce(|a, b| a ^ b);
+            let exp_f = coll.iter().next().copied();
+            set_run(1, 1, 1, 1);
+            let n = coll.par().num_threads(2).chunk_size(1).count();
+            assert!(n == exp_n, "C01,C04: par() of a std collection does not deliver every element of its iterator exactly once");
+            set_run(1, 1, 1, 1);
+            let x = coll.par().num_threads(2).chunk_size(1).copied().reduce(|a, b| a ^ b);
+            assert!(x == exp_x, "C01,C03: par() of a std collection delivers wrong elements");
+            set_run(1, 1, 1, 1);
+            let f = coll.par().num_threads(2).chunk_size(1).copied().first();
+            assert!(f == exp_f, "C01,C02: the first element of the computation is not the first element of the collection's iterator");
+            kani::cover!(exp_n == 3);
+        }
+    };
+}
+
+coll_harness!(k_src_vecdeque_wrapped_par, d, {
+    let mut q: std::collections::VecDeque<u8> = std::collections::VecDeque::with_capacity(4);
+    q.push_back(d[0]);
+    q.push_back(d[1]);
+    q.push_front(d[2]); // wraps: as_slices() == ([d2], [d0, d1])
+    q
+});
+
+coll_harness!(k_src_linkedlist_par, d, {
+    let mut q: std::collections::LinkedList<u8> = std::collections::LinkedList::new();
+    q.push_back(d[0]);
+    q.push_back(d[1]);
+    q.push_back(d[2]);
+    q
+});
+
+coll_harness!(k_src_binaryheap_par, d, {
+    let mut q: std::collections::BinaryHeap<u8> = std::collections::BinaryHeap::with_capacity(4);
+    q.push(d[0]);
+    q.push(d[1]);
+    q.push(d[2]);
+    q
+});
